@@ -116,11 +116,15 @@ class UnimodalPdf(DensityEstimator):
         inverse_sort = sorter.argsort()
         v = x[sorter]
         intervals = zeros(x.size)
-        intervals[0] = (
-            quad(self.__call__, self.lwr_limit, v[0])[0]
-            if v[0] > self.lwr_limit
-            else 0.0
-        )
+        # probability below 'lwr_limit' - small, but not zero for heavy-tailed estimates
+        lwr_tail = self.lwr_limit - 100 * (self.upr_limit - self.lwr_limit)
+        if v[0] > self.lwr_limit:
+            intervals[0] = (
+                quad(self.__call__, lwr_tail, self.lwr_limit)[0]
+                + quad(self.__call__, self.lwr_limit, v[0])[0]
+            )
+        else:
+            intervals[0] = quad(self.__call__, min(lwr_tail, v[0]), v[0])[0]
         for i in range(1, x.size):
             intervals[i] = quad(self.__call__, v[i - 1], v[i])[0]
         integral = intervals.cumsum()[inverse_sort]
